@@ -28,11 +28,19 @@ signature x the four macros.  Each attribute has an observable whose expected va
 set: the relations of the explicit-closure program (specification oracle), run_timeout(Duration::MAX) exists and returns true,
 scc_times_summary() has its per-rule part.  The token shape of every packaging is also evaluated in Pack/PackAttrModel.v (the include
 path of parse_ascent_program with its parse state; theorem c09_include_is_splice_with_attributes): the configuration the model compiles
-the program with must be that of the attribute set."""
+the program with must be that of the attribute set.
+
+Family `big` (gen/c09_big.py): SIZE and ORDER of the declaration list.  6 (thorough: 30) of the logical programs above are each rendered,
+under all four macros, as a program of 21-64 `relation` / `lattice` declarations: unused filler relations with random names, 1-4 relations
+declared 2 or 3 times whose overridden declarations carry DECOY initialisers (an underivable tuple) or a #[ds(..)] attribute, declaration
+order random / sorted by name / reverse-sorted / sorted with the re-declarations at the end, 0-2 segments of the items moved into
+include_source! sources.  The LAST declaration of a name decides (its initialiser is the input; bare: the relation starts empty);
+every relation is compared (fillers: exactly the rows of the initialiser of their last declaration).  The declaration list of every such
+program is also evaluated in Pack/PackModel.v (initialisers_emitted, as written and after the stable sort_by_name of Pack/PackOrder.v)."""
 import json
 import os
 
-from .. import c09_attrs, c09_pack, dl, engine_tie, gen_dl, lib, prog
+from .. import c09_attrs, c09_big, c09_pack, dl, engine_tie, gen_dl, lib, prog
 
 PROP = "C09"
 PROP_FILE = "Props/C09.v"
@@ -66,6 +74,8 @@ def case_from_json(c, cid):
         out["view"] = rels_from_json(c["view"])
     if c.get("wo_family"):
         out["wo_family"] = True
+    if c.get("big_seeds"):
+        out["big_seeds"] = list(c["big_seeds"])          # arrangements of the family `big` that exposed a defect (gen/c09_big.py corpus_jobs)
     return out
 
 
@@ -269,10 +279,15 @@ def compare_job(r, job, res, feature, pred=None):
             continue
         sg0 = engine_tie.group_facts(spec, rels)
         sg = {n: (None, expected_rows(sg0[n][1], k_)) for n, _, k_ in rels}
+        # family `big`: a filler relation (no rule mentions it) holds exactly the rows of the initialiser of its LAST declaration
+        for n, rows in (job.get("fixed_rows") or {}).items():
+            sg[n] = (None, sorted({tuple(t) for t in rows}, key=repr))
         cs = dict(program=dl.rust_program_text(dict(c["prog"], rels=rels)), input=c["inputs"][k], packaging=job["kind"], macro=job["macro"], detail=job["desc"],
                   features=list(feature), prog=c["prog"], inputs=c["inputs"], script=s, script_input=job["script_input"],
                   expect_flags=job["expect_flags"], nscripts=job["nscripts"], module_source=job["src"], job_id=job["id"],
                   view=[list(x) for x in rels], wo_family=bool(c.get("wo_family")))
+        if job.get("family") == "big":
+            cs.update(family="big", fixed_rows=job["fixed_rows"], big=job.get("big"), program=job.get("program_text", cs["program"]))
         iv = res[s] if res else None
         what = None
         got = None
@@ -294,6 +309,10 @@ def compare_job(r, job, res, feature, pred=None):
                         [t for t in sg[name][1] if t not in iset][:5], [t for t in iset if t not in sg[name][1]][:5], dup[:5])
                     if name in wo and c["inputs"][k].get(name):
                         what += " [%s is write-only (no rule body reads it) and starts with %d initial rows]" % (name, len(c["inputs"][k][name]))
+                    if job.get("family") == "big":
+                        what += " [%s]" % job["desc"]
+                        if any(9 in t for t in iset):
+                            what += " [%s holds the tuple of a DECOY initialiser: an earlier declaration of the relation is in effect instead of the last one]" % name
                     break
         if what and job["kind"] == "inc_uniform" and pred and iv and "snaps" in iv and "snaps" in pred[s] \
                 and prog.canon_snap(iv["snaps"][-1]) == prog.canon_snap(pred[s]["snaps"][-1]):
@@ -326,6 +345,8 @@ def replay_case(path):
     cs = rp["case"]
     if cs.get("family") == "attrs":
         return c09_attrs.replay(cs)
+    if cs.get("family") == "big_model":
+        return c09_big.replay_model(cs)
     c = case_from_json(dict(prog=cs["prog"], inputs=cs["inputs"], wo_family=cs.get("wo_family")), "c09_replay")
     results = engine_tie.run(PROP, [c], tag="c09r", spec="strat")
     r = results[0]
@@ -335,6 +356,8 @@ def replay_case(path):
     if "module_source" in cs:
         job = dict(id=cs["job_id"], kind=cs["packaging"], macro=cs["macro"], desc=cs.get("detail", ""), src=cs["module_source"], nscripts=cs["nscripts"],
                    script_input=cs["script_input"], expect_flags=cs["expect_flags"], rels=rels_from_json(cs["view"]) if cs.get("view") else c["prog"]["rels"])
+        if cs.get("family") == "big":
+            job.update(family="big", fixed_rows=cs["fixed_rows"], big=cs.get("big"), program_text=cs.get("program"))
         feats = tuple(cs.get("features", []))
         res = c09_pack.build_and_run("c09r", [job], nbins=1, features=feats)
         m, ok = compare_job(r, job, res.get(job["id"]), feats)
@@ -366,6 +389,21 @@ def tie(tier, seed, replay):
                                      wo_family=bool(c.get("wo_family"))):
             jobs.append(j)
             owner[j["id"]] = r
+    # family `big` (gen/c09_big.py): the logical program inside 21-64 declarations (fillers, re-declarations, orders, includes), all four macros
+    brng = lib.rng_for(seed, PROP, "big")
+    elig = [r for r in results if r["front_status"] == "ok" and r["spec"] is not None and r["case"]["prog"]["rels"]]
+    nbig = 6 if tier == "quick" else 30
+    step = max(1, len(elig) // nbig)
+    big_jobs = []
+    for r in [r for r in elig if r["case"].get("big_seeds")] + elig[::step][:nbig]:
+        c = r["case"]
+        for j in (c09_big.corpus_jobs(c["id"], view_prog(c), c["inputs"], c.pop("big_seeds")) if c.get("big_seeds")
+                  else c09_big.packagings(brng, c["id"], view_prog(c), c["inputs"], tier)):
+            jobs.append(j)
+            big_jobs.append(j)
+            owner[j["id"]] = r
+    bm, nbm = c09_big.model_check(big_jobs)
+    mism += bm
     kinds, macros, okc = {}, {}, {}
     distinct = set()
     wo_stats = dict(programs=sum(1 for r in results if r["case"].get("wo_family")),
@@ -380,9 +418,11 @@ def tie(tier, seed, replay):
     evals += aevals
     for feats, tag in (((), "c09p"), (("segment-codegen",), "c09ps")):
         impl = {}
-        for i in range(0, len(jobs), 480):
-            impl.update(c09_pack.build_and_run(tag, jobs[i:i + 480], features=feats))
-        for j in jobs:
+        # (family `big` is built feature-less only: segment-codegen changes how rule code is emitted, not how declarations are resolved)
+        fjobs = [j for j in jobs if not (feats and j.get("family") == "big" and tier == "quick")]
+        for i in range(0, len(fjobs), 480):
+            impl.update(c09_pack.build_and_run(tag, fjobs[i:i + 480], features=feats))
+        for j in fjobs:
             if j.get("aux"):
                 continue
             r = owner[j["id"]]
@@ -405,13 +445,15 @@ def tie(tier, seed, replay):
     for j in jobs[:40]:
         if j["kind"] in ("inc_two", "redecl", "combo", "run_init", "run_wo_init") and len(sample) < 5:
             sample.append(dict(packaging=j["kind"], macro=j["macro"], detail=j["desc"], module=j["src"][j["src"].find("}} }") + 4:][:1800]))
+    sample += [dict(packaging=j["kind"], macro=j["macro"], detail=j["desc"], program=j["program_text"][:2500]) for j in big_jobs[2:3]]
     sample += asamples
     return dict(evaluations=evals, distinct_nontrivial=len(distinct) + attr_stats["scripts_where_an_attribute_is_observable"],
-                rule="random logical programs (1/4 without interpreted functions, 1/2 C01-style, 1/4 stratified with aggregates / negation; plus the family `wo`: programs with initialised WRITE-ONLY relations whose initial rows are derived again, half of them with write-only relations declared `lattice`) x 2 inputs, each rendered as 14-20 packagings (base, ascent_run! / ascent_run_par! with captured locals as initialisers or in rule bodies, only the write-only relations initialised, a random part of the relations initialised, ascent_par!, include_source! start / middle / end / two / adjacent / whole, initialisers via Default, re-declarations, generic signature, all tokens re-spanned to one span by a helper proc macro (alone and with includes), measure_rule_times, generate_run_timeout with run() and run_timeout(MAX), all combined), whole crate built with and without ascent/segment-codegen; every relation compared (set of rows AND number of rows: one row per derivable tuple, one row per key of a lattice) with the specification oracle of the logical program; non-trivial = the logical program derives at least one fact on that input; distinct = distinct (packaging job, script, feature).  Family `attrs`: programs with program-level inner attributes (#![ds(eqrel | trrel | trrel_uf | ascent::rel)], measure_rule_times, generate_run_timeout, inter_rule_parallelism) x include placement (pasted, first item: part / all / two adjacent / first + later, middle, end) x signature present / absent x ascent! / ascent_par! / ascent_run! / ascent_run_par!, feature-less build; observables: plain relations (sets + row counts) vs the specification oracle of the explicit-closure program, run_timeout(Duration::MAX) compiles and returns true, per-rule part of scc_times_summary(); non-trivial there = an attribute is observable in the script (measure / timeout present, or the closure reading differs from the plain reading on that input)",
+                rule="random logical programs (1/4 without interpreted functions, 1/2 C01-style, 1/4 stratified with aggregates / negation; plus the family `wo`: programs with initialised WRITE-ONLY relations whose initial rows are derived again, half of them with write-only relations declared `lattice`) x 2 inputs, each rendered as 14-20 packagings (base, ascent_run! / ascent_run_par! with captured locals as initialisers or in rule bodies, only the write-only relations initialised, a random part of the relations initialised, ascent_par!, include_source! start / middle / end / two / adjacent / whole, initialisers via Default, re-declarations, generic signature, all tokens re-spanned to one span by a helper proc macro (alone and with includes), measure_rule_times, generate_run_timeout with run() and run_timeout(MAX), all combined), whole crate built with and without ascent/segment-codegen; every relation compared (set of rows AND number of rows: one row per derivable tuple, one row per key of a lattice) with the specification oracle of the logical program; non-trivial = the logical program derives at least one fact on that input; distinct = distinct (packaging job, script, feature).  Family `big` (gen/c09_big.py): 6 (thorough 30) of the logical programs each rendered under ascent! / ascent_par! / ascent_run! / ascent_run_par! as a program of 21-64 relation / lattice declarations (unused filler relations with random names, 1-4 relations declared 2 or 3 times with DECOY initialisers holding an underivable tuple in the overridden declarations, declaration order random / sorted by name / reverse-sorted / sorted with the re-declarations at the end, 0-2 segments moved into include_source! sources); the last declaration decides the input of a relation; every relation compared (fillers: exactly the rows of the initialiser of their last declaration).  Family `attrs`: programs with program-level inner attributes (#![ds(eqrel | trrel | trrel_uf | ascent::rel)], measure_rule_times, generate_run_timeout, inter_rule_parallelism) x include placement (pasted, first item: part / all / two adjacent / first + later, middle, end) x signature present / absent x ascent! / ascent_par! / ascent_run! / ascent_run_par!, feature-less build; observables: plain relations (sets + row counts) vs the specification oracle of the explicit-closure program, run_timeout(Duration::MAX) compiles and returns true, per-rule part of scc_times_summary(); non-trivial there = an attribute is observable in the script (measure / timeout present, or the closure reading differs from the plain reading on that input)",
                 samples=sample, distribution=dict(programs=len(results), packaging_jobs=kinds, scripts_agreeing=okc, macros=macros,
                                                   pure_programs=sum(1 for r in results if c09_pack.is_pure(r["case"]["prog"])),
                                                   with_aggregates=sum(1 for r in results if r["case"]["prog"].get("shape") == "stratified"),
-                                                  write_only_family=wo_stats, attrs_family=attr_stats),
+                                                  write_only_family=wo_stats, attrs_family=attr_stats,
+                                                  big_family=dict(c09_big.stats(big_jobs), declaration_lists_evaluated_in_the_model=nbm)),
                 mismatches=mism,
                 trusted_base=["family attrs: gen/c09_attrs.py renders the packagings and abstracts each to the token shape of Pack/PackAttrModel.v (attributes, signature, one token per item, includes and sources); the closure semantics of the providers (C10 / C11 / C12's subject) enters through the explicit-closure program given to the specification oracle",
                               "gen/c09_pack.py renders the packagings (a wrong rendering shows as a false alarm, not as a silent pass: the expected answer comes from the logical program alone)",
